@@ -265,6 +265,13 @@ impl<'a, 'b: 'a, R: Read> RowParser<'a, 'b, R> {
             }
 
 
+            if col_num >= cols.len() {
+                return self
+                    .parser
+                    .lexer
+                    .make_generic_err("Zinc Grid parser: Row has more cells than columns.");
+            }
+
             let val = self.parser.parse_value()?;
             dict.insert(cols[col_num].name.clone(), val);
 
